@@ -4,7 +4,7 @@
    the string sanitiser, tar+gzip of nested archives, .helmignore matching) are universally
    quantified functions; the hypotheses about them are written out in each statement. *)
 From Coq Require Import List String Ascii Bool ZArith.
-From Helm Require Import Values.Tree Chart.Paths Chart.Archive Chart.Files Chart.Save Chart.Load
+From Helm Require Import Values.Tree Chart.Paths Chart.Archive Chart.Files Chart.Save Chart.Load Gen.Limits
   Chart.Wf Chart.LoadProofs Chart.AgreeProofs Chart.RecProofs Chart.Examples15.
 Import ListNotations.
 Local Open Scope string_scope.
@@ -120,6 +120,17 @@ Theorem C15_ignored_absent :
     (forall f, In f (c_templates c) \/ In f (c_files c) -> eff_ignored ignored (f_name f) = false).
 Proof. exact ignored_absent. Qed.
 Print Assumptions C15_ignored_absent.
+
+(* the per-file size check of the directory loader uses the operator read from directory.go, and
+   it is the same predicate as the archive loader's (both from the source, by the translator):
+   a file of exactly the limit is accepted by both *)
+Theorem C15_size_checks_agree :
+  forall a b : Z,
+  cmp_of op_dir_file_vs_limit a b = dir_file_over_limit a b /\
+  cmp_of op_entry_vs_file_limit a b = entry_over_file_limit a b /\
+  dir_file_over_limit a b = entry_over_file_limit a b.
+Proof. exact size_checks_agree. Qed.
+Print Assumptions C15_size_checks_agree.
 
 (* ---------- directory loader = archive loader ---------- *)
 (* The same file set (clean relative names, in the order of the directory walk), once read by
